@@ -93,7 +93,8 @@ theorem fromPriceOk_iff (p : Price) :
   simp [fromPriceOk, and_assoc]
 
 /-- an adjusted price that the price map accepts is well formed and inside the band:
-`0 < r − dev ≤ min ≤ max ≤ r + dev` (in unit prices). -/
+`0 < min`, `r ≤ min + dev` (i.e. `r − dev ≤ min` without truncated subtraction; `dev ≤ r` is NOT
+claimed), `min ≤ max ≤ r + dev` (unit prices). -/
 theorem accepted_after_adjust {U f : Nat} {p p' : Price} {ref : Option Dec}
     (h : adjust U f p ref = some p') (hok : fromPriceOk p' = true) :
     ∃ r dev, refUnit p ref = some r ∧ applyFactor 128 U r f = some dev ∧
@@ -104,7 +105,8 @@ theorem accepted_after_adjust {U f : Nat} {p p' : Price} {ref : Option Dec}
   · simp only [Dec.unit]; exact Nat.mul_pos (Nat.pos_of_ne_zero v0) (pow10_pos _)
   · simp only [Dec.unit, m]; exact Nat.mul_le_mul_right _ vle
 
-/-- an inverted or multiplier-mismatched result of the clamp is never accepted. -/
+/-- an inverted price (`max < min` in unit prices) — such as the clamp can produce — is never
+accepted by the price map. -/
 theorem never_accept_inverted (p : Price) (h : p.max.unit < p.min.unit) : fromPriceOk p = false := by
   cases hf : fromPriceOk p with
   | false => rfl
@@ -113,6 +115,13 @@ theorem never_accept_inverted (p : Price) (h : p.max.unit < p.min.unit) : fromPr
     have : p.min.unit ≤ p.max.unit := by
       simp only [Dec.unit, m]; exact Nat.mul_le_mul_right _ vle
     omega
+
+/-- a price whose bounds carry different decimal multipliers — the clamp keeps each bound's own
+multiplier, so it can return one — is never accepted either. -/
+theorem never_accept_mismatched (p : Price) (h : p.min.mult ≠ p.max.mult) : fromPriceOk p = false := by
+  cases hf : fromPriceOk p with
+  | false => rfl
+  | true => exact absurd ((fromPriceOk_iff p).1 hf).1 h
 
 /-- a price already inside the band is left alone (the function reports "no adjustment"). -/
 theorem adjust_none_in_band {U f : Nat} {p : Price} {ref : Option Dec} {r dev : Nat}
@@ -339,6 +348,7 @@ example : adjust (10 ^ 20) (10 ^ 18) ⟨⟨900, 2⟩, ⟨1200, 2⟩⟩ (some ⟨
 example : fromPriceOk ⟨⟨990, 2⟩, ⟨1010, 2⟩⟩ = true := by decide
 example : adjust (10 ^ 20) (10 ^ 18) ⟨⟨995, 2⟩, ⟨1005, 2⟩⟩ (some ⟨1000, 2⟩) = none := by decide
 
+example : never_accept_mismatched ⟨⟨5, 1⟩, ⟨5, 2⟩⟩ (by decide) = (rfl : fromPriceOk ⟨⟨5, 1⟩, ⟨5, 2⟩⟩ = false) := rfl
 example : adjusted (10 ^ 20) (10 ^ 12) ⟨⟨45, 0⟩, ⟨60, 0⟩⟩ (some ⟨50, 0⟩) = ⟨⟨50, 0⟩, ⟨50, 0⟩⟩ := by decide
 example : checkDeviation (10 ^ 20) (10 ^ 12) ⟨⟨50, 0⟩, ⟨50, 0⟩⟩ (some ⟨50, 0⟩) = .ok false := by rfl
 
